@@ -1589,7 +1589,32 @@ class Engine:
                     continue
                 for st2, taken in self.branch(st1b, t):
                     st2.trace.append("L%d:if=%s" % (s.lineno, taken))
+                    self.narrow(s.test, taken, st2)
                     yield from self.ex(s.body if taken else s.orelse, st2)
+
+    def narrow(self, test, taken, st):
+        """flow-sensitive narrowing of Opt[scalar] locals: after `if x:` / `if x is not None:` (true branch) and
+        `if x is None:` / `if not x:` (false branch) the name holds the inner value (the branch condition already
+        says it is not None)"""
+        nm = None
+        if isinstance(test, ast.Name) and taken:
+            nm = test.id
+        elif isinstance(test, ast.UnaryOp) and isinstance(test.op, ast.Not) and isinstance(test.operand, ast.Name) and not taken:
+            nm = test.operand.id
+        elif isinstance(test, ast.Compare) and len(test.ops) == 1 and isinstance(test.left, ast.Name) \
+                and isinstance(test.comparators[0], ast.Constant) and test.comparators[0].value is None:
+            if (isinstance(test.ops[0], ast.IsNot) and taken) or (isinstance(test.ops[0], ast.Is) and not taken):
+                nm = test.left.id
+        if nm is None:
+            return
+        if nm in st.env and isinstance(st.env[nm], V) and st.env[nm].ty.kind == "opt":
+            st.env[nm] = st.env[nm].val
+            return
+        for fr in reversed(st.frames):
+            if nm in fr:
+                if isinstance(fr[nm], V) and fr[nm].ty.kind == "opt":
+                    fr[nm] = fr[nm].val
+                return
 
     def ex_Raise(self, s, st):
         if s.exc is None:
